@@ -191,11 +191,13 @@ def load_findings(pid):
 # running
 # ----------------------------------------------------------------------------------------------
 
-def run_harness(pid, outdir, seed, n, tier, replay=None, timeout=3600):
+def run_harness(pid, outdir, seed, n, tier, replay=None, timeout=3600, slow=None):
     cmd = [os.path.join(BIN, "hv"), pid, "-seed", str(seed), "-n", str(n), "-tier", tier, "-out", outdir]
     if replay:
         cmd += ["-replay", replay]
     env = dict(os.environ, GOMEMLIMIT="8GiB", VERIF_REPO=REPO)
+    if slow:
+        env["VERIF_SLOW"] = str(slow)
     rc, out, dt = sh(cmd, cwd=outdir, env=env, timeout=timeout)
     return rc, out, dt
 
@@ -276,6 +278,31 @@ def evaluate(pid, outdir, batch):
     except (OSError, ValueError):
         pass
     return batch
+
+
+def confirm_case(pid, wd, case, log, attempts=3, slow=4):
+    """Re-run one failing case alone with stretched observation windows.  True iff it fails again
+    (any SPECFAIL / DIFF / process exit) in one of `attempts` runs: only then is a timing-dependent
+    observation believed."""
+    od = os.path.join(wd, "confirm")
+    for i in range(attempts):
+        shutil.rmtree(od, ignore_errors=True)
+        os.makedirs(od)
+        rp = os.path.join(od, "case.ops")
+        with open(rp, "w") as f:
+            for l in case:
+                f.write(case_key(l) + "\n")
+        try:
+            rc, out, dt = run_harness(pid, od, 1, 0, "quick", replay=rp, timeout=600, slow=slow)
+        except subprocess.TimeoutExpired:
+            rc, out, dt = 124, "timeout", 0
+        log.append((f"confirm attempt {i + 1}", rc, dt, out[-500:]))
+        if rc != 0:
+            return True
+        b = evaluate(pid, od, Batch())
+        if b.crashed or b.specfails or b.diffs or b.bad:
+            return True
+    return False
 
 
 def write_replay(pid, name, lines, header):
@@ -413,6 +440,38 @@ def main(argv):
             if batch.crashed:
                 broken.append("driver: " + batch.crashed)
 
+    # ---------------- timing-dependent observations are believed only if they reproduce ----------------
+    unstable = []
+    if cfg.get("timing") and (batch.specfails or batch.diffs):
+        keep = []
+        seen = {}
+        for cls, case, body in sorted(batch.specfails, key=lambda x: (len(x[1]), sum(len(l) for l in x[1]))):
+            if cls in open_classes or cls.endswith(".process-exit") or cls in cfg.get("timing_exempt", []):
+                keep.append((cls, case, body))
+                continue
+            st = seen.setdefault(cls, {"tried": 0, "confirmed": False})
+            if st["confirmed"]:
+                keep.append((cls, case, body))
+            elif st["tried"] < 3:
+                st["tried"] += 1
+                if confirm_case(pid, wd, case, log):
+                    st["confirmed"] = True
+                    keep.append((cls, case, body))
+                else:
+                    unstable.append(f"{body[:200]}")
+            else:
+                unstable.append(f"{body[:200]}")
+        batch.specfails = keep
+        if batch.diffs:
+            conf = False
+            for case, body in sorted(batch.diffs, key=lambda x: len(x[0]))[:3]:
+                if confirm_case(pid, wd, case, log):
+                    conf = True
+                    break
+            if not conf:
+                unstable += [f"{b[:200]}" for _, b in batch.diffs]
+                batch.diffs = []
+
     # ---------------- verdict ----------------
     violations = []
     known_hit = {}
@@ -476,6 +535,7 @@ def main(argv):
             "theorems": thms,
             "gen_modules": cfg.get("gen", []),
             "broken": broken,
+            "timing_unstable_observations": unstable[:20],
         },
         "assumptions": cfg.get("assumptions", []),
         "wall_s": round(wall, 2),
